@@ -29,8 +29,44 @@ func atomicAdd(in ssa.Instruction) (path string, delta int64, ok bool) {
 	if !isC {
 		return "", 0, false
 	}
-	return vpath(a[0]), d, true
+	return counterPath(a[0]), d, true
 }
+
+// counterPath: the place an atomic operand denotes. A counter pointer that was
+// copied into a local (possibly captured by a closure) is traced back to the
+// field it was loaded from, so `w := m.workerCnt; atomic.AddInt32(w, 1)` is
+// still an operation on m.workerCnt.
+func counterPath(v ssa.Value) string {
+	p := vpath(v)
+	if i := strings.LastIndex(p, "."); i >= 0 && moduleCounters[p[i+1:]] {
+		return p
+	}
+	if curCtx == nil {
+		return p
+	}
+	found := ""
+	for _, l := range curCtx.Leaves(v) {
+		if _, fr, ok := fieldLoad(l); ok && moduleCounters[fr.Name] {
+			if q := vpath(l); q != "" {
+				if found != "" && found != q {
+					return p // ambiguous
+				}
+				found = q
+			} else {
+				found = "?." + fr.Name
+			}
+		} else {
+			return p
+		}
+	}
+	if found != "" {
+		return found
+	}
+	return p
+}
+
+// curCtx is the loaded program (set by Load); used by helpers that have no Ctx parameter.
+var curCtx *Ctx
 
 // aboolOp: in is <path>.<method>() on an abool.
 func aboolOp(in ssa.Instruction) (path, method string, ok bool) {
